@@ -6,7 +6,7 @@ from __future__ import annotations
 import ast
 from typing import Dict, List, Optional, Set, Tuple
 
-from ..core import Ctx, assigned_names, dotted, names_in, norm, stmts_local, walk_local
+from ..core import Ctx, Locals, assigned_names, dotted, names_in, norm, stmts_local, walk_local
 from ..paths import enumerate_paths, guards_of
 from ..typed import Typed, eyecite_class, is_optional
 
@@ -360,6 +360,7 @@ def rule_extent_pairing(ctx: Ctx):
             ctx.ob("R-C17-2", f"{qual}/match", False, "match_on_tokens call not found", node=fn, mod=hm)
             continue
         ok, n, why = True, 0, ""
+        LOCS = Locals(fn)
         for p in enumerate_paths(fn.body):
             stores_meta = False
             ext = False
@@ -368,11 +369,12 @@ def rule_extent_pairing(ctx: Ctx):
                     continue
                 s = ev[1]
                 t = norm(s.targets[0])
-                if t.startswith(f"{C}.metadata.") and M in names_in(s.value):
+                vx = LOCS.expand(s.value, s, stop={M})
+                if t.startswith(f"{C}.metadata.") and M in names_in(vx):
                     stores_meta = True
-                if direction == "forward" and t == f"{C}.full_span_end" and norm(s.value) == f"{C}.span()[1] + {M}.end()":
+                if direction == "forward" and t == f"{C}.full_span_end" and norm(vx) in (f"{C}.span()[1] + {M}.end()", f"{C}.span()[-1] + {M}.end()"):
                     ext = True
-                if direction == "backward" and t == f"{C}.full_span_start" and norm(s.value).startswith(f"{C}.span()[0] - "):
+                if direction == "backward" and t == f"{C}.full_span_start" and norm(vx).startswith(f"{C}.span()[0] - "):
                     ext = True
             if stores_meta:
                 n += 1
@@ -384,7 +386,7 @@ def rule_extent_pairing(ctx: Ctx):
         if direction == "forward":
             # the only later change of full_span_end is a reduction by a non-negative amount
             later = [s for s in stmts_local(fn.body) if isinstance(s, ast.Assign) and norm(s.targets[0]) == f"{C}.full_span_end"
-                     and norm(s.value) != f"{C}.span()[1] + {M}.end()"]
+                     and LOCS.text(s.value, s, stop={M}) not in (f"{C}.span()[1] + {M}.end()", f"{C}.span()[-1] + {M}.end()")]
             good = all(norm(s.value).startswith(f"{C}.full_span_end - ") for s in later)
             ctx.ob("R-C17-2", f"{qual}/extent-only-trimmed", good, f"later adjustments only trim the end ({[norm(s)[:50] for s in later]})",
                    node=later[0] if later else fn, mod=hm, nontrivial=bool(later))
